@@ -510,6 +510,16 @@ PROPS = {
     "C19": {
         "class_prefixes": ["c19-", "harness-crash"],
         "subs": [
+            {"name": "sfr", "n_quick": 300, "n_thorough": 4000, "model": "coq/Frame/SaslFrame.v, coq/Auth/SaslWire.v, coq/Auth/Plain.v",
+             "rule": "the SASL frame codec on the bytes after the size field: `enc` = a generated SASL frame (mechanisms, init, challenge, response, outcome; "
+                     "optional fields present / absent, binaries of 0, 1, 255, 256 bytes) written and read back by the real FrameCodec, against enc_sasl_frame "
+                     "and dec_sasl_frame; `dec` = the same bytes under other headers (doff 0,1,3,255; type 0,2,255), with bytes 6-7 set, cut short anywhere, "
+                     "the descriptor by name (sym8, sym32) or as a long ulong, unknown and AMQP descriptors, trailing bytes, 18 fixed short frames, random "
+                     "bytes; `plw` = a real listener with SaslPlainMechanism(user, password) that has written its mechanisms is sent ONE frame of arbitrary "
+                     "bytes: a sasl-init with 15 response shapes (exact, with authzid, wrong / extended / truncated password, unknown user, one or no NUL, "
+                     "extra NUL, swapped, none, empty, random) under mechanism names PLAIN / ANONYMOUS / empty, the same under other headers, cut short, "
+                     "under the descriptor of another SASL frame or by name, frames only a server sends, a response before the init, random bytes - "
+                     "against plain_on_frame_bytes: outcome ok / not ok, AMQP header, accept() returned or not"},
             {"name": "saslx", "n_quick": 30, "n_thorough": 600, "oracle": False,
              "rule": "replay: the library's SCRAM client (SHA-1/256/512) logs in through a tap, the recorded client bytes are played back on new connections "
                      "of the same acceptor and must be refused every time (the server nonce is fresh per negotiation); anon: a listener with the ANONYMOUS "
@@ -538,7 +548,8 @@ PROPS = {
                 "client ok on non-ok outcome, panic, hang); non-trivial = accept succeeded or a full SCRAM exchange took place",
         "trusted": ["model scope: the listener's negotiation loop at the granularity of whole client actions; the credential comparison and the SCRAM arithmetic are "
                     "abstracted into the validity of an action, decided by the harness from the case (its own SCRAM implementation is checked against the RFC vectors and "
-                    "against the library's client)",
+                    "against the library's client); for PLAIN the abstraction is discharged by Auth/SaslWire.v + Auth/Plain.v (bytes of the frame -> action), whose typed-field "
+                    "check (typed_ok: a field is null where optional or of the declared type) stands for the typed decoders of the five SASL structs and is exercised on type-correct and malformed input only",
                     "hmac/sha1/sha2 crates (the library's own dependencies) used by the scripted side"],
         "assumptions": ["the client's bytes arrive as whole frames in the model-compared cases (fragmented and malformed input is exercised by the sasl sub and C15)"],
         "partial": ["the cryptographic strength of SCRAM is outside the model: the validity of a message (right proof, right signature, nonce extends) is decided by the harness's own RFC 5802 arithmetic"],
@@ -605,6 +616,8 @@ PROPS = {
                      "with a 2 MiB stack and a real-time limit"},
             {"name": "sasl", "n_quick": 100, "n_thorough": 2000, "oracle": False,
              "rule": "the SCRAM client against a scripted server naming extreme iteration counts (class c15-scram-iterations); see C19"},
+            {"name": "sfr", "n_quick": 300, "n_thorough": 4000, "model": "coq/Frame/SaslFrame.v",
+             "rule": "the SASL frame decoder on re-headed, truncated, re-described and random bytes (see C19): no panic, same result as dec_sasl_frame"},
             {"name": "codec", "n_quick": 300, "n_thorough": 20000, "model": "coq/Codec/Dec.v",
              "rule": "decoder totality on arbitrary bytes (see C04): the theorem side of 'never panics' for frame bodies"},
         ],
